@@ -21,6 +21,25 @@ fn cmp_lean(op: &syn::BinOp) -> Result<&'static str, String> {
     })
 }
 
+/// the same comparison with the operands swapped
+fn flip(op: &'static str) -> &'static str {
+    match op {
+        ">" => "<",
+        "<" => ">",
+        "≥" => "≤",
+        "≤" => "≥",
+        o => o,
+    }
+}
+
+/// (name, type) of the typed parameters of a fn, in order
+fn typed_params(sig: &syn::Signature) -> Vec<(String, String)> {
+    sig.inputs
+        .iter()
+        .filter_map(|a| if let syn::FnArg::Typed(t) = a { Some((toks(&t.pat), toks(&t.ty))) } else { None })
+        .collect()
+}
+
 #[derive(Default)]
 struct Ifs {
     conds: Vec<syn::Expr>,
@@ -32,137 +51,258 @@ impl<'ast> Visit<'ast> for Ifs {
     }
 }
 
-/// `bytes.extend_from_slice(&X)` statements in order (receiver must be `recv`)
-fn extends(block: &syn::Block, recv: &str) -> Vec<String> {
-    let mut v = vec![];
-    for st in &block.stmts {
-        if let syn::Stmt::Expr(syn::Expr::MethodCall(m), _) = st {
-            if m.method == "extend_from_slice" && toks(&m.receiver) == recv && m.args.len() == 1 {
-                v.push(toks(&m.args[0]));
-            }
-        }
-    }
-    v
-}
-
-fn local_init(block: &syn::Block, name: &str) -> Option<String> {
-    for st in &block.stmts {
-        if let syn::Stmt::Local(l) = st {
-            if toks(&l.pat).trim_start_matches("mut") == name {
-                return l.init.as_ref().map(|i| toks(&i.expr));
-            }
-        }
-    }
-    None
-}
-
 pub fn generate(repo: &PathBuf) -> Result<String, String> {
     let rel = "ant-evm/src/data_payments.rs";
     let file = parse_file(&repo.join(rel))?;
     let exp = const_value(&file, "QUOTE_EXPIRATION_SECS")?;
     let margin = const_value(&file, "LIVE_TIME_MARGIN")?;
 
-    // ---- bytes_for_signing: ordered parts
+    // ---- bytes_for_signing: ordered parts.  Parameters are recognised by TYPE, locals by what they are bound to.
     let f = impl_fn(&file, "PaymentQuote", None, "bytes_for_signing")?;
+    let by_type = |needle: &str| -> Result<String, String> {
+        typed_params(&f.sig)
+            .into_iter()
+            .find(|(_, t)| t.contains(needle))
+            .map(|(n, _)| n)
+            .ok_or_else(|| format!("bytes_for_signing: no parameter of type {needle}"))
+    };
+    let (p_xor, p_ts, p_qm, p_rw) = (by_type("XorName")?, by_type("SystemTime")?, by_type("QuotingMetrics")?, by_type("Address")?);
     let mut parts: Vec<&str> = vec![];
-    match local_init(&f.block, "bytes").as_deref() {
-        Some("xorname.to_vec()") => parts.push("content"),
-        other => return Err(format!("bytes_for_signing: unexpected initial value of `bytes`: {other:?}")),
-    }
-    for a in extends(&f.block, "bytes") {
-        if a == "&timestamp.duration_since(SystemTime::UNIX_EPOCH).expect(\"Unixepochtobeinthepast\").as_secs().to_le_bytes()" {
-            parts.push("secsLE8");
-        } else if a == "&serialised_quoting_metrics" {
-            match local_init(&f.block, "serialised_quoting_metrics").as_deref() {
-                Some("rmp_serde::to_vec(quoting_metrics).unwrap_or_default()") => parts.push("metrics"),
-                other => return Err(format!("bytes_for_signing: unexpected serialisation of the metrics: {other:?}")),
+    let mut acc: Option<String> = None;
+    let mut locals: Vec<(String, String)> = vec![];
+    let n_stmts = f.block.stmts.len();
+    for (i, st) in f.block.stmts.iter().enumerate() {
+        match st {
+            syn::Stmt::Local(l) => {
+                let name = toks(&l.pat).trim_start_matches("mut").to_string();
+                let init = l.init.as_ref().map(|i| toks(&i.expr)).unwrap_or_default();
+                if acc.is_none() && init == format!("{p_xor}.to_vec()") {
+                    acc = Some(name);
+                    parts.push("content");
+                } else {
+                    locals.push((name, init));
+                }
             }
-        } else if a == "rewards_address.as_slice()" {
-            parts.push("rewards");
-        } else {
-            return Err(format!("bytes_for_signing: unexpected part `{a}`"));
+            syn::Stmt::Macro(_) => {} // logging
+            syn::Stmt::Expr(syn::Expr::MethodCall(m), Some(_)) if acc.as_deref() == Some(toks(&m.receiver).as_str()) && (m.method == "extend_from_slice" || m.method == "extend") && m.args.len() == 1 => {
+                let raw = toks(&m.args[0]);
+                let arg = raw.trim_start_matches('&').to_string();
+                // a local stands for what it is bound to
+                let arg = locals.iter().find(|(n, _)| *n == arg).map(|(_, i)| i.clone()).unwrap_or(arg);
+                let ts_prefix = format!("{p_ts}.duration_since(SystemTime::UNIX_EPOCH).");
+                if arg.starts_with(&ts_prefix) && arg.ends_with(".as_secs().to_le_bytes()") {
+                    let mid = &arg[ts_prefix.len()..arg.len() - ".as_secs().to_le_bytes()".len()];
+                    if mid == "unwrap()" || (mid.starts_with("expect(\"") && mid.ends_with("\")")) {
+                        parts.push("secsLE8");
+                    } else {
+                        return Err(format!("bytes_for_signing: unexpected handling of the epoch error `{mid}`"));
+                    }
+                } else if arg == format!("rmp_serde::to_vec({p_qm}).unwrap_or_default()") || arg == format!("rmp_serde::to_vec(&{p_qm}).unwrap_or_default()") {
+                    parts.push("metrics");
+                } else if arg == format!("{p_rw}.as_slice()") || arg == format!("{p_rw}.as_ref()") {
+                    parts.push("rewards");
+                } else {
+                    return Err(format!("bytes_for_signing: unexpected part `{raw}`"));
+                }
+            }
+            syn::Stmt::Expr(e, None) if i + 1 == n_stmts && Some(toks(e)) == acc => {}
+            other => return Err(format!("bytes_for_signing: unexpected statement `{}`", toks(other))),
         }
     }
-    match f.block.stmts.last() {
-        Some(syn::Stmt::Expr(e, None)) if toks(e) == "bytes" => {}
-        _ => return Err("bytes_for_signing: expected to return `bytes`".into()),
+    if acc.is_none() {
+        return Err("bytes_for_signing: no accumulator initialised with the content address".into());
     }
     // bytes_for_sig passes self's own fields in order
     let f = impl_fn(&file, "PaymentQuote", None, "bytes_for_sig")?;
-    let body = toks(&f.block);
-    if body != "{Self::bytes_for_signing(self.content,self.timestamp,&self.quoting_metrics,&self.rewards_address,)}" {
+    let body = toks(&f.block).replace(",)", ")");
+    if body != "{Self::bytes_for_signing(self.content,self.timestamp,&self.quoting_metrics,&self.rewards_address)}" {
         return Err(format!("bytes_for_sig: unexpected body {body}"));
     }
 
     // ---- hash: bytes_for_sig ++ pub_key ++ signature
     let f = impl_fn(&file, "PaymentQuote", None, "hash")?;
     let mut hparts: Vec<&str> = vec![];
-    match local_init(&f.block, "bytes").as_deref() {
-        Some("self.bytes_for_sig()") => hparts.push("sigBytes"),
-        other => return Err(format!("hash: unexpected initial value {other:?}")),
-    }
-    for a in extends(&f.block, "bytes") {
-        match a.as_str() {
-            "self.pub_key.as_slice()" => hparts.push("pubKey"),
-            "self.signature.as_slice()" => hparts.push("signature"),
-            _ => return Err(format!("hash: unexpected part `{a}`")),
+    let mut acc: Option<String> = None;
+    let n_stmts = f.block.stmts.len();
+    for (i, st) in f.block.stmts.iter().enumerate() {
+        match st {
+            syn::Stmt::Local(l) if acc.is_none() => {
+                let init = l.init.as_ref().map(|i| toks(&i.expr)).unwrap_or_default();
+                if init != "self.bytes_for_sig()" {
+                    return Err(format!("hash: unexpected initial value `{init}`"));
+                }
+                acc = Some(toks(&l.pat).trim_start_matches("mut").to_string());
+                hparts.push("sigBytes");
+            }
+            syn::Stmt::Macro(_) => {}
+            syn::Stmt::Expr(syn::Expr::MethodCall(m), Some(_)) if acc.as_deref() == Some(toks(&m.receiver).as_str()) && (m.method == "extend_from_slice" || m.method == "extend") && m.args.len() == 1 => {
+                match toks(&m.args[0]).as_str() {
+                    "self.pub_key.as_slice()" | "&self.pub_key" => hparts.push("pubKey"),
+                    "self.signature.as_slice()" | "&self.signature" => hparts.push("signature"),
+                    a => return Err(format!("hash: unexpected part `{a}`")),
+                }
+            }
+            syn::Stmt::Expr(e, None) if i + 1 == n_stmts && acc.as_ref().map(|a| toks(e).ends_with(&format!("hash({a})"))).unwrap_or(false) => {}
+            other => return Err(format!("hash: unexpected statement `{}`", toks(other))),
         }
     }
 
-    // ---- has_expired
+    // ---- has_expired: `NOW = SystemTime::now()`; AGE = whole seconds of NOW.duration_since(self.timestamp), a failure
+    //      returns a constant; result = AGE <cmp> QUOTE_EXPIRATION_SECS (either operand order)
     let f = impl_fn(&file, "PaymentQuote", None, "has_expired")?;
-    let body = toks(&f.block);
-    if !body.contains("letnow=SystemTime::now();") || !body.contains("matchnow.duration_since(self.timestamp){Ok(dur)=>dur.as_secs(),") {
-        return Err("has_expired: expected `now.duration_since(self.timestamp)` with `as_secs`".into());
+    let mut now: Option<String> = None;
+    let mut age_names: Vec<String> = vec![]; // expressions that denote the whole seconds elapsed
+    let mut dur_names: Vec<String> = vec![]; // locals bound to the Ok(Duration)
+    let mut future: Option<bool> = None;
+    let ret_const = |e: &syn::Expr| -> Option<bool> {
+        match toks(e).trim_matches(|c| c == '{' || c == '}' || c == ';' || c == ',') {
+            "returntrue" => Some(true),
+            "returnfalse" => Some(false),
+            _ => None,
+        }
+    };
+    let mut exp_op: Option<&'static str> = None;
+    let n_stmts = f.block.stmts.len();
+    for (i, st) in f.block.stmts.iter().enumerate() {
+        match st {
+            syn::Stmt::Macro(_) => {}
+            syn::Stmt::Local(l) => {
+                let init = l.init.as_ref().ok_or("has_expired: uninitialised local")?;
+                let it = toks(&init.expr);
+                let name = toks(&l.pat);
+                if it == "SystemTime::now()" {
+                    now = Some(name);
+                } else if let (Some(n), Some((_, div))) = (&now, &init.diverge) {
+                    // let Ok(D) = NOW.duration_since(self.timestamp) else { return C };
+                    if it != format!("{n}.duration_since(self.timestamp)") || !name.starts_with("Ok(") {
+                        return Err(format!("has_expired: unexpected `let .. else` on `{it}`"));
+                    }
+                    dur_names.push(name[3..name.len() - 1].to_string());
+                    future = Some(ret_const(div).ok_or("has_expired: the else branch must return a constant")?);
+                } else if let (Some(n), syn::Expr::Match(m)) = (&now, &*init.expr) {
+                    if toks(&m.expr) != format!("{n}.duration_since(self.timestamp)") || m.arms.len() != 2 {
+                        return Err(format!("has_expired: unexpected match on `{}`", toks(&m.expr)));
+                    }
+                    for arm in &m.arms {
+                        let pat = toks(&arm.pat);
+                        if let Some(d) = pat.strip_prefix("Ok(").and_then(|r| r.strip_suffix(')')) {
+                            if toks(&arm.body) != format!("{d}.as_secs()") {
+                                return Err(format!("has_expired: the elapsed time is taken as `{}`, not as whole seconds", toks(&arm.body)));
+                            }
+                        } else if pat.starts_with("Err(") {
+                            future = Some(ret_const(&arm.body).ok_or("has_expired: the Err arm must return a constant")?);
+                        } else {
+                            return Err(format!("has_expired: unexpected arm `{pat}`"));
+                        }
+                    }
+                    age_names.push(name);
+                } else if dur_names.iter().any(|d| it == format!("{d}.as_secs()")) {
+                    age_names.push(name);
+                } else {
+                    return Err(format!("has_expired: unexpected local `{name} = {it}`"));
+                }
+            }
+            syn::Stmt::Expr(syn::Expr::Binary(b), None) if i + 1 == n_stmts => {
+                let is_age = |t: &str| age_names.iter().any(|a| a == t) || dur_names.iter().any(|d| t == format!("{d}.as_secs()"));
+                let (l, r) = (toks(&b.left), toks(&b.right));
+                exp_op = Some(if is_age(&l) && r == "QUOTE_EXPIRATION_SECS" {
+                    cmp_lean(&b.op)?
+                } else if is_age(&r) && l == "QUOTE_EXPIRATION_SECS" {
+                    flip(cmp_lean(&b.op)?)
+                } else {
+                    return Err(format!("has_expired: unexpected final comparison `{}`", toks(b)));
+                });
+            }
+            other => return Err(format!("has_expired: unexpected statement `{}`", toks(other))),
+        }
     }
-    let future = if body.contains("Err(_)=>returntrue,") {
-        true
-    } else if body.contains("Err(_)=>returnfalse,") {
-        false
-    } else {
-        return Err("has_expired: unexpected Err arm".into());
-    };
-    let exp_op = match f.block.stmts.last() {
-        Some(syn::Stmt::Expr(syn::Expr::Binary(b), None)) if toks(&b.left) == "dur_s" && toks(&b.right) == "QUOTE_EXPIRATION_SECS" => cmp_lean(&b.op)?,
-        _ => return Err("has_expired: expected final `dur_s <cmp> QUOTE_EXPIRATION_SECS`".into()),
-    };
+    let future = future.ok_or("has_expired: no verdict for a timestamp later than now")?;
+    let exp_op = exp_op.ok_or("has_expired: no final comparison with QUOTE_EXPIRATION_SECS")?;
 
     // ---- is_newer_than
     let f = impl_fn(&file, "PaymentQuote", None, "is_newer_than")?;
-    let newer_op = match f.block.stmts.last() {
-        Some(syn::Stmt::Expr(syn::Expr::Binary(b), None)) if toks(&b.left) == "self.timestamp" && toks(&b.right) == "other.timestamp" => cmp_lean(&b.op)?,
-        _ => return Err("is_newer_than: expected `self.timestamp <cmp> other.timestamp`".into()),
+    let other = typed_params(&f.sig).into_iter().next().map(|(n, _)| n).ok_or("is_newer_than: no parameter")?;
+    let newer_op = match f.block.stmts.as_slice() {
+        [syn::Stmt::Expr(syn::Expr::Binary(b), None)] => {
+            let (l, r) = (toks(&b.left), toks(&b.right));
+            if l == "self.timestamp" && r == format!("{other}.timestamp") {
+                cmp_lean(&b.op)?
+            } else if r == "self.timestamp" && l == format!("{other}.timestamp") {
+                flip(cmp_lean(&b.op)?)
+            } else {
+                return Err(format!("is_newer_than: unexpected comparison `{}`", toks(b)));
+            }
+        }
+        _ => return Err("is_newer_than: expected a single comparison of the two timestamps".into()),
     };
 
     // ---- historical_verify
     let f = impl_fn(&file, "PaymentQuote", None, "historical_verify")?;
+    let other = typed_params(&f.sig).into_iter().next().map(|(n, _)| n).ok_or("historical_verify: no parameter")?;
     let body = toks(&f.block);
-    if !body.contains("let(old_quote,new_quote)=ifself_is_newer{(other,self)}else{(self,other)};") {
-        return Err("historical_verify: unexpected ordering of (old_quote, new_quote)".into());
+    // all locals of the function (nested blocks included are not needed: the bindings we use are top level)
+    let mut hl: Vec<(String, String)> = vec![];
+    for st in &f.block.stmts {
+        if let syn::Stmt::Local(l) = st {
+            hl.push((toks(&l.pat), l.init.as_ref().map(|i| toks(&i.expr)).unwrap_or_default()));
+        }
     }
-    if !body.contains("lettime_diff=old_elapsed.as_secs().saturating_sub(new_elapsed.as_secs());") {
-        return Err("historical_verify: unexpected time_diff".into());
-    }
-    if !body.contains("letlive_time_diff=new_quote.quoting_metrics.live_time-old_quote.quoting_metrics.live_time;") {
-        return Err("historical_verify: unexpected live_time_diff".into());
-    }
+    let newer_call = format!("self.is_newer_than({other})");
+    let newer_local = hl.iter().find(|(_, i)| *i == newer_call).map(|(n, _)| n.clone());
+    let is_newer_cond = |c: &str| c == newer_call || Some(c.to_string()) == newer_local;
+    // (OLD, NEW) = if self-is-newer { (other, self) } else { (self, other) }
+    let (old_q, new_q) = hl
+        .iter()
+        .find_map(|(pat, init)| {
+            let names = pat.strip_prefix('(')?.strip_suffix(')')?.split_once(',')?;
+            let rest = init.strip_prefix("if")?;
+            let (cond, branches) = rest.split_once('{')?;
+            if is_newer_cond(cond) && branches == format!("({other},self)}}else{{(self,{other})}}") {
+                Some((names.0.to_string(), names.1.to_string()))
+            } else {
+                None
+            }
+        })
+        .ok_or("historical_verify: cannot find `(old, new) = if self_is_newer { (other, self) } else { (self, other) }`")?;
+    // elapsed times: locals bound (through `if let Ok(..) = X.timestamp.elapsed() {..} else {return ..}`) to old / new
+    let elapsed_of = |q: &str| hl.iter().find(|(_, i)| i.starts_with(&format!("ifletOk(")) && i.contains(&format!("={q}.timestamp.elapsed()"))).map(|(n, _)| n.clone());
+    let (old_e, new_e) = (elapsed_of(&old_q).ok_or("historical_verify: no elapsed() of the old quote")?, elapsed_of(&new_q).ok_or("historical_verify: no elapsed() of the new quote")?);
+    let time_diff = hl
+        .iter()
+        .find(|(_, i)| *i == format!("{old_e}.as_secs().saturating_sub({new_e}.as_secs())"))
+        .map(|(n, _)| n.clone())
+        .ok_or("historical_verify: expected `old_elapsed.as_secs().saturating_sub(new_elapsed.as_secs())`")?;
+    let live_diff = hl
+        .iter()
+        .find(|(_, i)| *i == format!("{new_q}.quoting_metrics.live_time-{old_q}.quoting_metrics.live_time"))
+        .map(|(n, _)| n.clone())
+        .ok_or("historical_verify: expected `new.live_time - old.live_time`")?;
     let mut ifs = Ifs::default();
     ifs.visit_block(&f.block);
     let mut live = None;
     let mut paid = None;
     let mut sync = None;
     let mut order = vec![];
+    let norm = |b: &syn::ExprBinary, left: &[String], right: &[String]| -> Result<Option<&'static str>, String> {
+        let (l, r) = (toks(&b.left), toks(&b.right));
+        if left.contains(&l) && right.contains(&r) {
+            Ok(Some(cmp_lean(&b.op)?))
+        } else if left.contains(&r) && right.contains(&l) {
+            Ok(Some(flip(cmp_lean(&b.op)?)))
+        } else {
+            Ok(None)
+        }
+    };
     for c in &ifs.conds {
         if let syn::Expr::Binary(b) = c {
-            let (l, r) = (toks(&b.left), toks(&b.right));
-            if l == "new_quote.quoting_metrics.live_time" && r == "old_quote.quoting_metrics.live_time" {
-                live = Some(cmp_lean(&b.op)?);
+            if let Some(op) = norm(b, &[format!("{new_q}.quoting_metrics.live_time")], &[format!("{old_q}.quoting_metrics.live_time")])? {
+                live = Some(op);
                 order.push("live");
-            } else if l == "new_quote.quoting_metrics.received_payment_count" && r == "old_quote.quoting_metrics.received_payment_count" {
-                paid = Some(cmp_lean(&b.op)?);
+            } else if let Some(op) = norm(b, &[format!("{new_q}.quoting_metrics.received_payment_count")], &[format!("{old_q}.quoting_metrics.received_payment_count")])? {
+                paid = Some(op);
                 order.push("paid");
-            } else if l == "live_time_diff" && r == "time_diff+LIVE_TIME_MARGIN" {
-                sync = Some(cmp_lean(&b.op)?);
+            } else if let Some(op) = norm(b, &[live_diff.clone()], &[format!("{time_diff}+LIVE_TIME_MARGIN"), format!("LIVE_TIME_MARGIN+{time_diff}")])? {
+                sync = Some(op);
                 order.push("sync");
             } else {
                 return Err(format!("historical_verify: unexpected condition `{}`", toks(c)));
@@ -183,26 +323,49 @@ pub fn generate(repo: &PathBuf) -> Result<String, String> {
     let rel2 = "ant-networking/src/cmd.rs";
     let cfile = parse_file(&repo.join(rel2))?;
     let f = impl_fn(&cfile, "SwarmDriver", None, "verify_peer_quote")?;
-    let body = toks(&f.block);
-    if !body.starts_with("{ifletSome(history_quote)=self.quotes_history.get(&peer_id){") || !body.ends_with("let_=self.quotes_history.insert(peer_id,quote);}") {
-        return Err(format!("verify_peer_quote: unexpected frame {body}"));
+    let vp = typed_params(&f.sig);
+    let (p_peer, p_quote) = match vp.as_slice() {
+        [(a, ta), (b, tb)] if ta.contains("PeerId") && tb.contains("PaymentQuote") => (a.clone(), b.clone()),
+        _ => return Err("verify_peer_quote: expected (peer: PeerId, quote: PaymentQuote)".into()),
+    };
+    let (iflet, insert) = match f.block.stmts.as_slice() {
+        [syn::Stmt::Expr(syn::Expr::If(i), _), last] => (i, toks(last)),
+        _ => return Err("verify_peer_quote: expected `if let Some(h) = history.get(peer) {..}` followed by the insert".into()),
+    };
+    if insert.trim_end_matches(';').trim_start_matches("let_=") != format!("self.quotes_history.insert({p_peer},{p_quote})") || iflet.else_branch.is_some() {
+        return Err(format!("verify_peer_quote: unexpected final statement `{insert}`"));
     }
-    let mut ifs = Ifs::default();
-    ifs.visit_block(&f.block);
+    let hist = toks(&iflet.cond)
+        .strip_prefix("letSome(")
+        .and_then(|r| r.strip_suffix(&format!(")=self.quotes_history.get(&{p_peer})")).map(|x| x.to_string()))
+        .ok_or_else(|| format!("verify_peer_quote: unexpected condition `{}`", toks(&iflet.cond)))?;
     let mut checks: Vec<&str> = vec![];
-    for c in &ifs.conds {
-        match toks(c).as_str() {
-            "letSome(history_quote)=self.quotes_history.get(&peer_id)" => {}
-            "!history_quote.historical_verify(&quote)" => checks.push("verify"),
-            "history_quote.is_newer_than(&quote)" => checks.push("newer"),
-            other => return Err(format!("verify_peer_quote: unexpected condition `{other}`")),
+    for st in &iflet.then_branch.stmts {
+        match st {
+            syn::Stmt::Macro(_) => {}
+            syn::Stmt::Expr(syn::Expr::If(i), _) if i.else_branch.is_none() => {
+                let cond = toks(&i.cond);
+                // the branch body without log macros
+                let body: Vec<String> = i.then_branch.stmts.iter().filter(|s| !matches!(s, syn::Stmt::Macro(_))).map(|s| toks(s)).collect();
+                if cond == format!("!{hist}.historical_verify(&{p_quote})") {
+                    if body != [format!("self.record_node_issue({p_peer},NodeIssue::BadQuoting);"), "return;".to_string()] {
+                        return Err("verify_peer_quote: a failed historical_verify is expected to record NodeIssue::BadQuoting and return".into());
+                    }
+                    checks.push("verify");
+                } else if cond == format!("{hist}.is_newer_than(&{p_quote})") {
+                    if body != ["return;".to_string()] {
+                        return Err("verify_peer_quote: a newer remembered quote is expected to return without recording".into());
+                    }
+                    checks.push("newer");
+                } else {
+                    return Err(format!("verify_peer_quote: unexpected condition `{cond}`"));
+                }
+            }
+            other => return Err(format!("verify_peer_quote: unexpected statement `{}`", toks(other))),
         }
     }
-    if !body.contains("if!history_quote.historical_verify(&quote){info!") || !body.contains("self.record_node_issue(peer_id,NodeIssue::BadQuoting);return;}") {
-        return Err("verify_peer_quote: a failed historical_verify is expected to record NodeIssue::BadQuoting and return".into());
-    }
-    if !body.contains("ifhistory_quote.is_newer_than(&quote){return;}") {
-        return Err("verify_peer_quote: `history_quote.is_newer_than(&quote)` is expected to return without recording".into());
+    if checks.len() != 2 || checks[0] == checks[1] {
+        return Err(format!("verify_peer_quote: expected the two checks once each, found {checks:?}"));
     }
     let hf = impl_fn(&cfile, "SwarmDriver", None, "handle_local_cmd")?;
     let hb = toks(&hf.block);
@@ -219,7 +382,7 @@ pub fn generate(repo: &PathBuf) -> Result<String, String> {
     s.push_str(&format!("/-- `PaymentQuote::bytes_for_signing`: parts in the order they are appended -/\ndef signingParts : List Part := [{}]\n", list(&parts)));
     s.push_str("inductive HashPart | sigBytes | pubKey | signature\n  deriving DecidableEq, Repr\n");
     s.push_str(&format!("/-- `PaymentQuote::hash`: what is fed to the hash, in order -/\ndef hashParts : List HashPart := [{}]\n", list(&hparts)));
-    s.push_str(&format!("/-- `has_expired`: final comparison `dur_s {exp_op} QUOTE_EXPIRATION_SECS` -/\ndef expiredCmp (durS limit : Nat) : Bool := decide (durS {exp_op} limit)\n"));
+    s.push_str(&format!("/-- `has_expired`: final comparison `elapsed_secs {exp_op} QUOTE_EXPIRATION_SECS` -/\ndef expiredCmp (durS limit : Nat) : Bool := decide (durS {exp_op} limit)\n"));
     s.push_str(&format!("/-- `has_expired`: verdict when the timestamp is later than now (`duration_since` fails) -/\ndef futureExpired : Bool := {}\n", lean_bool(future)));
     s.push_str(&format!("/-- `is_newer_than`: `self.timestamp {newer_op} other.timestamp` -/\ndef newerCmp (self other : Nat) : Bool := decide (self {newer_op} other)\n"));
     s.push_str(&format!("/-- `historical_verify`: `new.live_time {} old.live_time` ⇒ false -/\ndef liveOutOfSeq (new old : Nat) : Bool := decide (new {} old)\n", live.unwrap(), live.unwrap()));
